@@ -424,6 +424,8 @@ H("streams_received_reset_native", ["C06", "C11"], "replay-only", "connection::s
   [("over", "bool")], 4, [], ["StreamsState::received_reset", "Recv::reset"], "native replay body of E2 query e2_streams_received_reset")
 H("conn_update_keys_native", ["C04"], "replay-only", "connection::update_keys_native",
   [("remote", "bool")], 4, [], ["Connection::update_keys", "Connection::decrypt_packet", "packet_crypto::decrypt_packet_body"], "native replay body of E2 queries e2_update_keys / e2_decrypt_packet_key_update / e2_decrypt_packet_body_keys / e2_decrypt_prev_filter")
+H("conn_predict_overhead_native", ["C16", "C13"], "replay-only", "connection::predict_overhead_native",
+  [("x", "u8")], 4, [], ["Connection::predict_1rtt_overhead", "Connection::tag_len_1rtt", "Datagrams::max_size"], "native replay body of E2 query e2_predict_1rtt_overhead_remote_cid")
 H("dgram_api_native", ["C16", "C13"], "replay-only", "connection::dgram_api_native",
   [("peer", "u32"), ("len_", "u16"), ("drop", "bool")], 4, [], ["Datagrams::max_size", "Datagrams::send"], "native replay body of E2 queries e2_datagrams_max_size / e2_datagrams_send")
 H("endpoint_retry_token_native", ["C14"], "replay-only", "endpoint::retry_token_native",
@@ -522,6 +524,8 @@ H("streams_reset_after_fin_acked_native", ["C11"], "replay-only", "connection::s
   [("x", "u8")], 4, [], ["SendStream::reset", "StreamsState::received_ack_of", "StreamsState::write_stream_frames"], "native replay body of E2 query e2_sendstream_reset_legality")
 H("path_sent_forgotten_native", ["C12"], "replay-only", "connection::paths::sent_forgotten_native",
   [("n", "u16"), ("size", "u16")], 4, [], ["PathData::sent", "PacketSpace::sent", "PacketSpace::take", "PathData::remove_in_flight"], "native replay body of E2 query e2_pathdata_sent_forgotten_leaves_in_flight")
+H("sendbuf_unacked_native", ["C05", "C01"], "replay-only", "connection::send_buffer::unacked_native",
+  [("x", "u8")], 4, [], ["SendBuffer::write", "SendBuffer::poll_transmit", "SendBuffer::ack", "SendBuffer::unacked"], "native replay body of E2 queries e2_sendbuf_unacked_subtracts_acked / e2_sendbuf_unacked_range_term")
 H("space_sent_tail_native", ["C03", "C12"], "replay-only", "connection::spaces::sent_tail_native",
   [("n", "u16")], 4, [], ["PacketSpace::sent", "PacketSpace::take"], "native replay body of E2 query e2_packet_space_sent_tail_counter")
 H("packet_truncated_prefixes_native", ["C04", "C03"], "replay-only", "packet::truncated_prefixes_native",
@@ -546,7 +550,7 @@ H("tp_preferred_address_read", ["C10", "C03"], "quick", "transport_parameters::p
   ["PreferredAddress::read", "PreferredAddress::write", "PreferredAddress::wire_size", "ConnectionId::new"],
   "every buffer of 0..=64 bytes (every CID length byte, every address / port / token content); decoded fields compared at their first and last byte")
 # NOTE tp_roundtrip_ints (thorough-only) retired: CBMC times out on it at the thorough cap in this sandbox (final sweep), so it only ever made `./check C10 thorough` inconclusive.
-H("tp_resumption", ["C03", "C10", "C17"], "quick", "transport_parameters::resumption",
+H("tp_resumption", ["C03", "C05", "C10", "C17"], "quick", "transport_parameters::resumption",
   [("a", "[u64; 8]"), ("b", "[u64; 8]"), ("ga", "bool"), ("gb", "bool"), ("da", "bool"), ("db", "bool")], 10,
   ["accepted", "rejected"], ["TransportParameters::validate_resumption_from"], "every pair of parameter sets with values < 2^62")
 H("tp_read_one_01_len1", ["C03", "C10"], "quick", "transport_parameters::read_one_int",
